@@ -1,5 +1,5 @@
 /*VERIF
-{ "tu": "src/queue.c", "enforce": "_dispatch_lane_non_barrier_complete", "props": ["C01","C04","C05","C17"],
+{ "tu": "src/queue.c", "enforce": "_dispatch_lane_non_barrier_complete", "props": ["C01","C04","C05","C17","C10"],
   "nondet_volatile": true, "timeout": 180,
   "assumes": ["rely: observed dq_state values include the completing reader's own width unit"],
   "stub_note": "_dispatch_lane_barrier_complete, dx_push on the target, retain/release: logged call-outs (their own contracts: h_lane_barrier_complete, C17)" }
